@@ -315,6 +315,8 @@ def trust_rules(fb, ctx):
 
 
 def loading_rules(fb, ctx):
+    from props import tablesym
+    tablesym.rule_translate_rules(fb, ctx)
     lb = fb.body("biscuit_auth::token::builder::authorizer::load_and_translate_block")
     lh = fb.hir_of(lb)
     where = f"{lb['file']}:{lb['line']}"
